@@ -418,6 +418,11 @@ func (s *Store) persistHeader(file File) error {
 	return nil
 }
 
+// errHeaderNotWritten is returned by checkHeader for a header page
+// that holds no (complete) header, as left behind by a crash before
+// the first sync of a newly created file.
+var errHeaderNotWritten = fmt.Errorf("store: readHeader not enough lines")
+
 func checkHeader(file File) error {
 	buf := make([]byte, StorePageSize)
 
@@ -431,7 +436,7 @@ func checkHeader(file File) error {
 
 	lines := strings.Split(string(buf), "\n")
 	if len(lines) < 2 {
-		return fmt.Errorf("store: readHeader not enough lines")
+		return errHeaderNotWritten
 	}
 	if lines[0] != "moss-data-store:" {
 		return fmt.Errorf("store: readHeader wrong file prefix")
@@ -440,6 +445,9 @@ func checkHeader(file File) error {
 	hdr := Header{}
 	err = json.Unmarshal([]byte(lines[1]), &hdr)
 	if err != nil {
+		if _, ok := err.(*json.SyntaxError); ok {
+			return errHeaderNotWritten // Header line cut short.
+		}
 		return err
 	}
 	if hdr.Version != StoreVersion {
@@ -599,10 +607,12 @@ func openStore(dir string, options StoreOptions) (*Store, error) {
 		err = checkHeader(file)
 		if err != nil {
 			file.Close()
-			if err == io.EOF || err == io.ErrUnexpectedEOF {
-				// The file is shorter than a header: its creation was
-				// interrupted (for example a crash right after a
-				// compaction created it), so try the next older file.
+			if err == io.EOF || err == io.ErrUnexpectedEOF ||
+				err == errHeaderNotWritten {
+				// The file is shorter than a header or its header page
+				// never reached the disk: its creation was interrupted
+				// (for example a crash right after a compaction created
+				// it, before its first sync), so try the next older file.
 				continue
 			}
 			return nil, err
